@@ -72,3 +72,12 @@ package datadog
 //@   ensures[C20] timing: l.metricType == 1 ==> ncalls("(*github.com/DataDog/datadog-go/v5/statsd.Client).TimeInMilliseconds") == 1 && callarg("(*github.com/DataDog/datadog-go/v5/statsd.Client).TimeInMilliseconds", 0, 1) == l.id && callarg("(*github.com/DataDog/datadog-go/v5/statsd.Client).TimeInMilliseconds", 0, 2) == value && ncalls("(*github.com/DataDog/datadog-go/v5/statsd.Client).Distribution") == 0 && ncalls("(*github.com/DataDog/datadog-go/v5/statsd.Client).Count") == 0
 //@   ensures[C20] count: l.metricType == 2 ==> ncalls("(*github.com/DataDog/datadog-go/v5/statsd.Client).Count") == 1 && callarg("(*github.com/DataDog/datadog-go/v5/statsd.Client).Count", 0, 1) == l.id && callarg("(*github.com/DataDog/datadog-go/v5/statsd.Client).Count", 0, 2) == int(value) && ncalls("(*github.com/DataDog/datadog-go/v5/statsd.Client).Distribution") == 0 && ncalls("(*github.com/DataDog/datadog-go/v5/statsd.Client).TimeInMilliseconds") == 0
 //@   ensures[C20] unknown_kind_ignored: l.metricType > 2 ==> nevents() == 0
+
+// Constructors: the induction base of the registry invariant.
+//@ func NewMetricRegistryWithClient
+//@   establishes[C20] ret0 != nil ==> ret0
+//@   ensures[C20] not_started: ret0 != nil ==> ret1 == nil && fresh(ret0) && !ret0.started && len(ret0.registeredGauges) == 0 && len(ret0.registeredListeners) == 0 && ret0.client == client
+//@   ensures[C20] needs_backend: client == nil ==> ret0 == nil && ret1 != nil
+//@ func NewMetricRegistry
+//@   establishes[C20] ret0 != nil ==> ret0
+//@   ensures[C20] not_started: ret0 != nil ==> ret1 == nil && fresh(ret0) && !ret0.started && len(ret0.registeredGauges) == 0 && len(ret0.registeredListeners) == 0
